@@ -266,6 +266,12 @@ func (p *peer) reply(id, how string) {
 	switch {
 	case how == "result":
 		p.sv.Feed(`<iq type="result" id="` + escAttr(id) + `" from="` + peerJID + `"/>`)
+	case how == "error-bare":
+		// a refusal without an <error/> child (a server bouncing the request)
+		p.sv.Feed(`<iq type="error" id="` + escAttr(id) + `" from="` + peerJID + `"/>`)
+	case how == "error-echo":
+		// a refusal that only echoes the request
+		p.sv.Feed(`<iq type="error" id="` + escAttr(id) + `" from="` + peerJID + `"><open xmlns="` + nsIBB + `" sid="echo" block-size="4096"/></iq>`)
 	case strings.HasPrefix(how, "error:"):
 		parts := strings.SplitN(strings.TrimPrefix(how, "error:"), "/", 2)
 		typ, cond := "cancel", parts[0]
